@@ -454,9 +454,24 @@ fn c10_end(f: &Facts, sc: &Sc) {
 		}
 		let running = text.starts_with("cur=Running");
 		let own = f.ops.iter().find(|o| o.idx == *idx).map_or(Prio::Normal, |o| o.op.prio());
+		let own_rec = f.ops.iter().find(|o| o.idx == *idx);
 		for item in pend.split(',') {
 			let pidx: usize = item[1..].parse().unwrap_or(usize::MAX);
-			let pop = f.ops.iter().find(|o| o.idx == pidx).map(|o| o.op);
+			let prec = f.ops.iter().find(|o| o.idx == pidx);
+			let pop = prec.map(|o| o.op);
+			// "pending when the job task looked at its queues": the job cannot have taken this
+			// marker off its queue before the marker was sent, so a higher-priority control
+			// sent earlier — or in the same breath, with no task polled in between — was
+			// certainly queued at that look. One sent later, after a poll, may have arrived
+			// while the marker was already taken and about to run (nothing makes taking a
+			// control and running it one atomic step), which the property does not forbid.
+			let certainly_queued = match (own_rec, prec) {
+				(Some(x), Some(y)) => y.log_pos < x.log_pos || y.polls == x.polls,
+				_ => true,
+			};
+			if !certainly_queued {
+				continue;
+			}
 			if item.starts_with('U') && own < Prio::Urgent {
 				f.push(
 					format!("C10/{}-ran-while-urgent-pending", if own == Prio::High { "high" } else { "normal" }),
